@@ -86,6 +86,10 @@ func (p *Provider) Run(ctx context.Context, deps core.ProviderDeps) (err error) 
 	} else {
 		err = p.runFullScan(ctx)
 	}
+	if errors.Is(err, decoders.ErrAmmoLimit) || errors.Is(err, decoders.ErrPassLimit) {
+		// reaching the configured bounds is the normal end of ammo, not a provider failure
+		err = nil
+	}
 
 	return
 }
